@@ -33,7 +33,8 @@ RULE = ("cutting-stock instances (roll width 5-20, 1-4 piece sizes <= width with
         "by canonical (function, instance, options)")
 # per-call wall-clock limit.  solve_bp is called with max_nodes <= 100 on the generated instances
 # (<= 1 s per call on the repaired code, solve_cg and the exact optimum take milliseconds), so
-# hitting it means the call did >= 15x the work any legitimate run needs.
+# hitting it means the call did >= 15x the work any legitimate run needs; a call that hits it is
+# re-run with 4x the limit after the pool has drained, and reported only if it times out again.
 TIMEOUT = 15.0
 USABLE = ("OPTIMAL", "FEASIBLE")
 
@@ -202,7 +203,8 @@ def to_request(case, out):
         obj = r["obj"]
         duals = r["duals"]
     return ["case", case["mode"], case["W"], case["sizes"], case["demands"], case["cols"], plan, obj, duals,
-            case["fn"], int(case["opts"].get("max_iter", 1000)), case["init"]]
+            case["fn"], int(case["opts"].get("max_iter", 1000)), case["init"],
+            int(case["opts"].get("max_nodes", 10000))]
 
 
 # ---------------------------------------------------------------------------
@@ -226,7 +228,7 @@ def judge(ctx, case, out, reply):
              sorted(case["opts"].items())]
     if out[0] == "timeout":
         ctx.count("timeouts")
-        fail(fn, "timeout", f"no result within {TIMEOUT:.0f} s (max_nodes={case['opts'].get('max_nodes', 10000)}; the exact optimum takes the model < 1 s)", rep)
+        fail(fn, "timeout", f"no result within {TIMEOUT:.0f} s and, re-run, within {4 * TIMEOUT:.0f} s (max_nodes={case['opts'].get('max_nodes', 10000)}; the exact optimum takes the model < 1 s)", rep)
         ctx.case(canon, False)
         return
     if out[0] != "ok":
@@ -292,28 +294,61 @@ def judge(ctx, case, out, reply):
 def mirror_check(ctx, case, out, mirror, opt):
     """The solve_cg mirror (Solvor/Cut/Mirror.lean): certificate checks on its own output, and
     R_trace = its returned (status, plan) against the implementation's."""
-    m_status, m_plan, _m_iters, m_ok, m_feas, m_bound = mirror
+    m_status, m_plan, _m_iters, m_ok, m_feas, m_bound, m_raw = mirror[:7]
+    bp_extra = mirror[7:]  # solve_bp: [rootConverged, lowerBound, rootIntegral, rootSide]
     if not m_feas:
         raise Infra(f"mirror duals rejected by dualFeasible after scaling: {case}")
     if opt is not None and m_bound > opt:
         raise Infra(f"verified dual bound {m_bound} of the mirror exceeds the proved optimum {opt}: {case}")
     if m_status in USABLE:
         ctx.count("cert_checked_model" if m_ok else "mirror_plan_rejected_by_checker")
-        if m_ok and m_status == "OPTIMAL" and opt is not None and sum(c for _, c in m_plan) == m_bound == opt:
+        if m_ok and m_status == "OPTIMAL" and opt is not None and not bp_extra and \
+                sum(c for _, c in m_plan) == m_bound == opt:
             ctx.count("mirror_optimal_certified_by_own_duals")
+    if bp_extra:
+        _conv, _lb, root_int, root_side, fragile = bp_extra
+        # bp_mirror_optimal_of_duals: OPTIMAL + checker verdict + root duals feasible (+ the side
+        # condition when the root LP was integral) => true minimum
+        if m_status == "OPTIMAL" and m_ok and m_raw and (root_side or not root_int):
+            ctx.count("bp_mirror_optimal_by_theorem")
+            if opt is None or sum(c for _, c in m_plan) != opt:
+                raise Infra(f"bp_mirror_optimal_of_duals contradicted: {case} mirror {m_plan} optimum {opt}")
+        elif m_status == "OPTIMAL":
+            ctx.count("bp_mirror_optimal_side_condition_open")
+    elif m_raw and m_status == "OPTIMAL" and (m_ok or case["mode"] == "cs"):
+        # hypotheses of cg_mirror_optimal_of_duals / cg_custom_mirror_optimal_of_duals hold on this
+        # input: the mirror's plan is a true minimum by theorem
+        ctx.count("mirror_optimal_by_theorem")
+        if opt is None or sum(c for _, c in m_plan) != opt:
+            raise Infra(f"cg_mirror_optimal_of_duals contradicted: {case} mirror {m_plan} optimum {opt}")
+    elif m_status == "OPTIMAL":
+        ctx.count("mirror_optimal_side_condition_open")
     if out[0] == "ok":
         got = (out[1]["status"], out[1]["sol"])
     else:
         got = (err_kind(out), None)
-    want = (m_status, sorted(m_plan) if m_status != "OverflowError" else None)
-    if got == want:
+    want = (m_status, sorted(m_plan) if m_status != "OverflowError" and m_plan is not None else None)
+    if bp_extra and bp_extra[4]:
+        # the mirror met a tie that the code resolves with a bare `>` on doubles (rounding noise
+        # decides): the mirror relation is not defined for this run
+        ctx.count("r_trace_skipped_float_tie" + (":agree" if got == want else ":differ"))
+    elif got == want:
         ctx.count("r_trace_agree")
+        ctx.count("r_trace_agree:" + case["fn"])
     else:
         ctx.tdiv(case["fn"], {"case": case, "impl": got, "mirror": want})
 
 
 def run_cases(ctx, cases):
     outs = run_pool(impl, cases, timeout=TIMEOUT)
+    # a time-out is confirmed by running the call again on a quiet machine with 4x the limit
+    # (DESIGN §2.4); only a repeated time-out is reported
+    slow = [i for i, o in enumerate(outs) if o[0] == "timeout"]
+    if slow:
+        ctx.count("timeouts_first_pass", len(slow))
+        again = run_pool(impl, [cases[i] for i in slow], timeout=4 * TIMEOUT, procs=4)
+        for i, o in zip(slow, again):
+            outs[i] = o
     reqs = [to_request(c, o) for c, o in zip(cases, outs)]
     replies = Driver("Cut").run(reqs, chunks=12)
     for c, o, rp in zip(cases, outs, replies):
@@ -321,7 +356,8 @@ def run_cases(ctx, cases):
             raise Infra(f"model rejected request: {rp} for {c}")
         judge(ctx, c, o, rp)
     h = ctx.cov["histogram"]
-    for k in ("cert_checked_impl", "cert_checked_model", "r_trace_agree", "timeouts", "excluded_region_hits",
+    for k in ("cert_checked_impl", "cert_checked_model", "r_trace_agree", "mirror_optimal_by_theorem",
+              "mirror_optimal_side_condition_open", "timeouts", "excluded_region_hits",
               "dual_bound_checked", "optimal_certified_by_impl_duals"):
         ctx.cov[k] = h.get(k, 0)
     ctx.cov["missing_theorems"] = ["cg_mirror_certifies ([S]: the solve_cg mirror returns a valid plan and a "
@@ -330,8 +366,8 @@ def run_cases(ctx, cases):
 
 def run(ctx, budget):
     ctx.cov["rule"] = RULE
-    ctx.cov["r_trace"] = ("solve_cg: returned (status, plan as a sorted list) equals the Rat mirror's "
-                          "(Solvor/Cut/Mirror.lean); solve_bp: not defined (tree search not modelled)")
+    ctx.cov["r_trace"] = ("solve_cg and solve_bp: returned (status, plan as a sorted list) equals the Rat "
+                          "mirror's (Solvor/Cut/Mirror.lean, MirrorBp.lean)")
     cases = []
     for inst in list(edge_cases()) + [c["case"] for c in load_corpus("C17")]:
         if "fn" in inst:
